@@ -729,10 +729,23 @@ def basis_event(mesh, basis):
     d = dof_tables(basis.dofs)
     for k in ('N', 'nodal', 'edge', 'facet', 'interior'):
         ev[k] = d[k]
+    ev['comp'] = component_names(basis.elem)
     return ev
+
+
+def component_names(elem):
+    """Composite elements: signature and own DOF names of every component (public attribute `elems`), so that what a name
+    u^k designates can be decided from the k-th component instead of from the composite's own name table."""
+    try:
+        if hasattr(elem, 'elems') and len(elem.elems) >= 1:
+            return {'sigs': [signature(e) for e in elem.elems], 'names': [names_of(e) for e in elem.elems]}
+    except Exception:
+        pass
+    return {'sigs': [], 'names': []}
 
 
 def basis_error_event(err):
     return {'a': 'Basis', 'err': err, 'sig': {'n': 0, 'e': 0, 'f': 0, 'i': 0}, 'names': [], 'kind': 'line',
+            'comp': {'sigs': [], 'names': []},
             'nv': 0, 'nf': 0, 'ne': 0, 't': [], 't2f': [], 't2e': [], 'facets': [], 'edges': [], 'N': 0,
             'nodal': [], 'edge': [], 'facet': [], 'interior': []}
